@@ -130,5 +130,14 @@ CHECKS["C09"] = dict(
     note=_TB + "; LAPACK eigh / eig are served from the harness' registry (inverse parametrisation); Krylov dimension <= 2 for the Lanczos / Arnoldi paths",
     technique="concolic symbolic execution of the Python source on exact rational-function terms with uninterpreted exp / log, sqrt generators and registered "
               "eigen-decompositions; z3 decides residuals and mask / sort path flips; float replay of every path seed")
-for _p in ["C10","C16","C17","C18","C19"]:
+CHECKS["C10"] = dict(
+    text="eig(A, k, which, alg) executed on inputs given by their eigen-decomposition with symbolic (definite and indefinite) spectra: Eigh under the LAPACK "
+         "ascending-order contract, Eig under every output order of LAPACK, the Identity / Diagonal / Triangular (lower and upper) rules, Lanczos and "
+         "Arnoldi algorithm objects with >= n iterations (real, complex, small-norm), power iteration / Auto k=1 / eigmax on rank-one PSD inputs: "
+         "A V == V diag(lambda), orthonormal / non-zero vectors, the number of pairs, and the selection obligation |returned| >= |not returned| (LM) / <= (SM) "
+         "as a pure inequality query over the symbolic spectrum decided by z3",
+    note=_TB + "; LAPACK eigh / eig are served from the harness' registry; Krylov algorithms for n = 2; LOBPCG / IRAM outside",
+    technique="concolic symbolic execution of the Python source on exact rational-function terms with registered eigen-decompositions; z3 decides the "
+              "magnitude-ordering inequalities, sort / mask path flips and residual equalities; float replay of path seeds")
+for _p in ["C16","C17","C18","C19"]:
     NA[_p] = "check under construction in this session (not yet registered); see DESIGN.md section 5 for the plan"
